@@ -171,16 +171,18 @@ EVICT_ENS = [
 MA = '%s.remove(%s)' % (M0, K)
 QA = 'rm1(old(self).order@, %s)' % K
 NEW = '(value, now_secs(), 0u64)'
+# an existing key is replaced in place (never transiently absent) unless a memory bound forces the stale value out of the accounting first
+REPL = '(%s.contains_key(%s) && old(self).max_memory is None)' % (M0, K)
 INSERT_ENS = [
     CFG_FRAME,
     ('post_wf', ['C04', 'C13'], 'wf(%s, final(self).order@)' % M1),
     ('stats_frame', ['C15'], 'final(self).stats == old(self).stats'),
     ('last_store_wins', ['C01', 'C11', 'C03', 'C09', 'C10'], '%s.contains_key(%s) && %s[%s] == %s' % (M1, K, M1, K, NEW)),
-    ('fits_exact', ['C04', 'C03', 'C20'], '(old(self).limit is None || %s.len() < old(self).limit->Some_0) ==> '
-     '%s == %s.insert(%s, %s) && final(self).order@ == touch(old(self).order@, %s)' % (MA, M1, M0, K, NEW, K)),
-    ('overflow_one_victim', ['C04', 'C07', 'C08'], '(old(self).limit is Some && %s.len() >= old(self).limit->Some_0) ==> '
+    ('fits_exact', ['C04', 'C03', 'C20'], '(%s || old(self).limit is None || %s.len() < old(self).limit->Some_0) ==> '
+     '%s == %s.insert(%s, %s) && final(self).order@ == touch(old(self).order@, %s)' % (REPL, MA, M1, M0, K, NEW, K)),
+    ('overflow_one_victim', ['C04', 'C07', 'C08'], '(!%s && old(self).limit is Some && %s.len() >= old(self).limit->Some_0) ==> '
      'exists|v: String| async_victim_ok(old(self).policy, %s, %s, v, old(self).ttl, old(self).frequency_weight) && %s == (#[trigger] %s.remove(v)).insert(%s, %s) && final(self).order@ == rm1(%s, v).push(%s)'
-     % (MA, MA, QA, M1, MA, K, NEW, QA, K)),
+     % (REPL, MA, MA, QA, M1, MA, K, NEW, QA, K)),
     ('survivors_unchanged', ['C01', 'C13'], 'forall|x: String| x != %s && #[trigger] %s.contains_key(x) ==> %s.contains_key(x) && %s[x] == %s[x]' % (K, M1, M0, M1, M0)),
     ('bound', ['C04'], '(old(self).limit is Some && %s.len() <= old(self).limit->Some_0) ==> %s.len() <= old(self).limit->Some_0' % (M0, M1)),
 ]
@@ -229,11 +231,13 @@ UNIT = dict(
         dict(kind='struct', file=A, name='AsyncGlobalCache', rules=R1_TYPES + LIFETIME),
         fn('new', ret='c', ensures=[('stores_arguments', ['C01', 'C04', 'C05', 'C06', 'C07', 'C08'], 'c.limit == limit && c.max_memory == max_memory && c.policy == policy && c.ttl == ttl && c.frequency_weight == frequency_weight && c.cache@ == cache@ && c.order@ == order@')]),
         fn('get', ret='res', rules=R4 + R5, requires=WF, ensures=GET_ENS),
-        fn('is_already_key_inserted', split_self=True, ret='r', rules=R4,
+        fn('is_already_key_inserted', split_self=True, split_always=('max_memory',), ret='r', rules=R4,
            requires=[('wf', 'wf(old(cache)@, old(order)@)')],
-           ensures=[('continues', ['C01', 'C11', 'C03', 'C20', 'C09', 'C10'], '!r'),
-                    ('stale_dropped', ['C01', 'C11', 'C04', 'C03', 'C05', 'C20'], 'final(cache)@ == old(cache)@.remove(s2s(key)) && final(order)@ == rm1(old(order)@, s2s(key))'),
-                    ('post_wf', ['C04'], 'wf(final(cache)@, final(order)@)')]),
+           ensures=[('replacing_in_place_iff_present_and_no_memory_bound', ['C01', 'C11', 'C03', 'C20', 'C09', 'C10', 'C04'], 'r == (old(cache)@.contains_key(s2s(key)) && max_memory is None)'),
+                    ('stale_dropped', ['C01', 'C11', 'C04', 'C03', 'C05', 'C20'], 'max_memory is Some ==> final(cache)@ == old(cache)@.remove(s2s(key))'),
+                    ('replaced_in_place_never_absent', ['C03', 'C01', 'C20'], 'max_memory is None ==> final(cache)@ == old(cache)@'),
+                    ('unqueued', ['C01', 'C11', 'C04', 'C07', 'C20'], 'final(order)@ == rm1(old(order)@, s2s(key))'),
+                    ('post_wf', ['C04'], 'wf(final(cache)@.remove(s2s(key)), final(order)@)')]),
         fn('find_min_frequency_key', split_self=True, ret='res',
            ensures=[FIND_FRAME,
                     ('argmin_hits', ['C08'], 'res is Some ==> a_is_min_hits(old(cache)@, order@, res->Some_0)'),
